@@ -225,7 +225,16 @@ def dict_op(h, rng, U, base):
         h.setdefault(z, rng.choice([None, "N", str(h.sid * 10 + 1)]))
     elif r < 0.80:
         n = rng.choice([0, 1, 2, 3, 5, 9])
-        h.update([(key_in(rng, U, base), h.newval()) for _ in range(n)])
+        pairs = [(key_in(rng, U, base), h.newval()) for _ in range(n)]
+        if rng.random() < 0.4:
+            # distinct keys in ascending order: the harness then also passes the argument as another BPlusTreeMap
+            # (whose items() arrive in key order), and sometimes the keys lie beyond the current maximum
+            ks = sorted(set(k for k, _ in pairs))
+            if rng.random() < 0.3:
+                top = max(list((h.m() or {0: 0}).keys()) + [0])
+                ks = [top + 1 + i for i in range(len(ks))]
+            pairs = [(k, h.newval()) for k in ks]
+        h.update(pairs)
     elif r < 0.88:
         h.copy(rng.randrange(1, 4))
     elif r < 0.95:
